@@ -146,14 +146,25 @@ structure StF where
   later : List Bytes
   out : List Bytes
 
+/-- why the outcome of a run is not a function of the byte stream alone -/
+inductive Amb where
+  /-- the marker searched by `synchronise` first occurs beyond the window every segmentation
+      is guaranteed to search (peer pad > 512) -/
+  | marker
+  /-- bytes follow IA inside the same epoch (the MSE server's `len(buf) > 0` test sees them
+      only if they arrive glued) -/
+  | pipelined
+  deriving DecidableEq, Repr
+
 inductive ResF (α : Type) where
   | ok (a : α) (st : StF)
   | err (e : HsErr) (out : List Bytes)
-  /-- the outcome is not a function of the byte stream: the marker searched by
-      `synchronise` first occurs beyond the window every segmentation is guaranteed to
-      search (peer pad > 512), or bytes follow IA inside the same epoch (the MSE server's
-      `len(buf) > 0` test sees them only if they arrive glued) -/
-  | ambiguous
+  /-- the outcome is not a function of the byte stream, see `Amb` -/
+  | ambiguous (why : Amb)
+
+def ResF.isAmb {α : Type} : ResF α → Bool
+  | .ambiguous _ => true
+  | _ => false
 
 def xorEpochs (ks : Nat → UInt8) (pos : Nat) : List Bytes → List Bytes
   | [] => []
@@ -176,11 +187,11 @@ def runF {α : Type} : Prog α → StF → ResF α
     match findSub v st.rest with
     | some i =>
       if i + v.length ≤ n then runF k { st with rest := st.rest.drop (i + v.length) }
-      else .ambiguous
+      else .ambiguous .marker
     | none =>
       if n ≤ st.rest.length then .err .sync st.out
       else .err (eofOrStall st.later.isEmpty) st.out
-  | .ifEmpty y _, st => if st.rest.isEmpty then runF y st else .ambiguous
+  | .ifEmpty y _, st => if st.rest.isEmpty then runF y st else .ambiguous .pipelined
   | .xorAll ks k, st =>
     runF k { st with rest := xorAt ks 0 st.rest, later := xorEpochs ks st.rest.length st.later }
   | .unread b k, st => runF k { st with rest := b ++ st.rest }
